@@ -19,8 +19,10 @@ EXTENDS Pattern, Json
 
 CONSTANTS MinPatt, MaxPatt, MinPerm, MaxPerm, Shard, NShards, Colours
 
-VARIABLES patt, bound, searched, perm, reply, cols
-vars == <<patt, bound, searched, perm, reply, cols>>
+VARIABLES patt, bound, searched, perm, reply, cols, its
+vars == <<patt, bound, searched, perm, reply, cols, its>>
+\* its: the searches currently open as lazy iterators on this pattern object, each
+\*      [q |-> permutation, got |-> the tuples yielded so far, done |-> exhausted]
 \* cols: <<>> for a plain search, <<cp, cq>> (colours of pattern / permutation positions)
 \* for a coloured one.
 \* bound: has this object built its table;  searched: has any search been made
@@ -47,25 +49,46 @@ Universe == {q \in PPermsBetween(MinPerm, MaxPerm) : PWeight(q) % NShards = Shar
 
 InitInputs == /\ patt \in Patts
               /\ perm \in Universe
-              /\ bound = TRUE /\ searched = TRUE /\ cols = <<>>
+              /\ bound = TRUE /\ searched = TRUE /\ cols = <<>> /\ its = <<>>
               /\ reply = POccSeq0(patt, perm)
 Stutter == UNCHANGED vars
 
-InitHist == patt \in Patts /\ bound = FALSE /\ searched = FALSE /\ perm = <<>> /\ reply = <<>> /\ cols = <<>>
+InitHist == patt \in Patts /\ bound = FALSE /\ searched = FALSE /\ perm = <<>> /\ reply = <<>> /\ cols = <<>> /\ its = <<>>
 
 Search(q) == /\ perm' = q
              /\ reply' = POccSeq0(patt, q)          \* the definition, whatever memo holds
              /\ bound' = TRUE                       \* table bound on first use, then kept
              /\ searched' = TRUE /\ cols' = <<>>
-             /\ UNCHANGED patt
+             /\ UNCHANGED <<patt, its>>
 \* a coloured search uses (and on first use binds) the same table
 SearchCol(q, cp, cq) == /\ perm' = q /\ cols' = <<cp, cq>>
                         /\ reply' = POccColSeq0(patt, q, cp, cq)
                         /\ bound' = TRUE /\ searched' = TRUE
-                        /\ UNCHANGED patt
+                        /\ UNCHANGED <<patt, its>>
 Fresh == /\ bound
          /\ bound' = FALSE
-         /\ UNCHANGED <<patt, searched, perm, reply, cols>>
+         /\ UNCHANGED <<patt, searched, perm, reply, cols, its>>
+\* Lazy protocol: occurrences_in returns a generator; several may be open on the same
+\* object and be advanced in any interleaving.  Each yields the listing in order.
+MaxIts == 2
+OpenIter(q) == /\ Len(its) < MaxIts
+               /\ its' = Append(its, [q |-> q, got |-> <<>>, done |-> FALSE])
+               /\ UNCHANGED <<patt, bound, searched, perm, reply, cols>>
+StepIter(i) == /\ i \in DOMAIN its /\ ~its[i].done
+               /\ LET all == POccSeq0(patt, its[i].q)  k == Len(its[i].got) IN
+                  /\ its' = IF k < Len(all) THEN [its EXCEPT ![i].got = Append(@, all[k + 1])]
+                                             ELSE [its EXCEPT ![i].done = TRUE]
+                  /\ bound' = (bound \/ Len(patt) \in 1..Len(its[i].q))   \* table is bound when the body first runs
+               /\ UNCHANGED <<patt, searched, perm, reply, cols>>
+NextIter == \/ \E q \in Universe : OpenIter(q)
+            \/ \E i \in 1..MaxIts : StepIter(i)
+            \/ \E q \in Universe : Search(q)
+\* whatever the interleaving, each iterator has yielded a prefix of the listing, and the
+\* whole listing once it is exhausted
+ItersIndependent == \A i \in DOMAIN its :
+                       LET all == POccSeq0(patt, its[i].q) IN
+                       /\ Len(its[i].got) <= Len(all) /\ its[i].got = SubSeq(all, 1, Len(its[i].got))
+                       /\ its[i].done => its[i].got = all
 ColourSeqs(n) == [1..n -> Colours]
 NextHist == \/ Fresh
             \/ \E q \in Universe : Search(q)
@@ -98,7 +121,7 @@ MemoWellFormed == bound =>
 Monotone == (searched /\ reply # <<>> /\ Len(patt) > 0) =>
               \A i \in DOMAIN patt : PContains(perm, PStd(PSeqDel(patt, i)))
 
-HistView == <<patt, bound>>     \* perm/reply are observation variables
+HistView == <<patt, bound, its>>     \* perm/reply are observation variables
 
 \* ---- emission ----------------------------------------------------------------
 EmitState == PrintT(ToJson([p |-> patt, q |-> perm, occ |-> reply, tab |-> Memo]))
